@@ -301,10 +301,9 @@ class Report:
         evdir.mkdir(parents=True, exist_ok=True)
         if self.write_evidence:
             (evdir / f'{self.prop}.json').write_text(json.dumps(ev, indent=1, default=str) + '\n')
-        for fid, n in self.known_seen.items():
-            if fid.startswith('_ex_'):
-                continue
-            f = self.known[fid]
+        # one line per OPEN finding recorded for this property (also when this run met no instance of it)
+        for fid, f in self.known.items():
+            n = self.known_seen.get(fid, 0)
             print(f"KNOWN-FINDING: property={self.prop} {fid}: {f.get('mechanism', '')} (n={n} this run)")
         if self.violations:
             rdir = outroot / 'replays' / self.prop
